@@ -313,6 +313,8 @@ class SymExec:
         if k == "unop":
             a = self.operand(st, r["a"])
             if r["op"] == "PtrMetadata":
+                if a[0] == "ref":
+                    return ("len", ("refv", self.read(st, a[1])))
                 return ("len", a)
             return ("unop", r["op"], a)
         if k == "discr":
